@@ -154,7 +154,7 @@ void showValue(const Case & c, std::ostream & os) {
 
 int main(int argc, char ** argv) {
   long cases = 1000; long seed = 1; std::string out = "frag.json", replay_dir = "."; int maxsize = 100;
-  double budget_s = 0; long max_shrink = 400;
+  double budget_s = 0; long max_shrink = 400; std::string save_inconclusive; int saved_inconclusive = 0;
   for (int i = 1; i < argc; i++) {
     std::string a = argv[i];
     auto nxt = [&]() { if (i + 1 >= argc) { fprintf(stderr, "missing value for %s\n", a.c_str()); exit(2); } return std::string(argv[++i]); };
@@ -171,6 +171,7 @@ int main(int argc, char ** argv) {
     else if (a == "--size") maxsize = atoi(nxt().c_str());
     else if (a == "--budget") budget_s = atof(nxt().c_str());
     else if (a == "--max-shrink") max_shrink = atol(nxt().c_str());
+    else if (a == "--save-inconclusive") save_inconclusive = nxt();
     else { fprintf(stderr, "unknown arg %s\n", a.c_str()); return 2; }
   }
   signal(SIGPIPE, SIG_IGN);
@@ -203,7 +204,13 @@ int main(int argc, char ** argv) {
       evaluations++;
       all_hashes.insert(r.hash);
       for (auto & l : r.labels) classes[l]++;
-      if (r.verdict == V_INCONCLUSIVE) inconclusive++;
+      if (r.verdict == V_INCONCLUSIVE) {
+        inconclusive++;
+        if (!save_inconclusive.empty() && saved_inconclusive < 4) {
+          char nm[600]; snprintf(nm, sizeof nm, "%s/inconclusive_C%02d_seed%ld_%d.case", save_inconclusive.c_str(), g_prop, seed, saved_inconclusive++);
+          Bytes b = blob_of(c, false); FILE * f = fopen(nm, "wb"); if (f) { fwrite(b.data(), 1, b.size(), f); fclose(f); }
+        }
+      }
       if (r.verdict == V_REJECT) rejected++;
       if (!r.known.empty()) { excluded_known++; known_classes[r.known]++; }
       if (r.nontrivial && r.verdict == V_OK) {
